@@ -112,6 +112,14 @@ def dmlWrites : List Write :=
    ⟨"View.replace", "view.go", "view.go", "view.RecordSet[index][fidx]", "recordArray"⟩,
    ⟨"View.replace", "view.go", "view.go", "view.RecordSet", "viewStruct"⟩]
 
+/-- every struct copy of a FileInfo (`x := *fi`) in lib/query: (function, site, the expression copied, `dml` = inside a data-changing function or a view method it calls / `other`) -/
+def fileInfoCopies : List Write :=
+  [⟨"loadView", "load_view.go", "load_view.go", "*view.FileInfo", "other"⟩]
+
+/-- every assignment of the data-changing functions (and the view methods they call) that gives a view ANOTHER FileInfo -/
+def fileInfoInstalls : List Write :=
+  [⟨"CreateTable", "query.go", "query.go", "view.FileInfo", "viewStruct"⟩]
+
 /-- the functions that were described -/
 def copyFunctions : List String :=
   ["ExportOptions.Copy", "FieldIndexCache.Copy", "Header.Copy", "Header.Merge", "ImportOptions.Copy", "NewCell", "NewReferenceRecord", "Record.Copy", "RecordSet.Copy", "ReferenceRecord.copyForChildScope", "ReferenceScope.GetTemporaryTable", "ReferenceScope.GetTemporaryTableWithInternalId", "View.Copy", "ViewMap.Get", "ViewMap.GetWithInternalId"]
